@@ -488,9 +488,95 @@ func init() {
 	register("C04", "Allocated ids are unique forever", func(c *Ctx) {
 		c.Group("C04/id-window", "premises of the invariant base <= end <= stored end: base++ only below end or after a successful rebase; end/base installed only after the window transaction was applied, with the value that was put; lock held", func() { ruleIDAllocator(c) })
 		c.Group("C04/single-allocator", "one allocator instance per server", func() { ruleSingleAllocator(c) })
-		c.Group("C04/ids-delivered", "allocated ids are used only after the error test and every batch has its own buffer", func() { ruleIDsDelivered(c); rulePlannedPeerIDs(c) })
+		c.Group("C04/ids-delivered", "allocated ids are used only after the error test and every batch has its own buffer", func() { ruleIDsDelivered(c); rulePlannedPeerIDs(c); ruleNewPeersAreFresh(c) })
 		c.Group("C04/leader-guarded-write", "(shared with C03) the id-window write carries the leader comparator", func() { ruleLeaderOnlyKeys(c, "id window") })
 		c.Group("C04/serve-after-init", "(shared with C03) a new leader rebases the id window before it serves", func() { ruleStepUpDown(c) })
 		c.Group("C04/not-leader-refused", "(shared with C03) id allocation is refused by a non-leader", func() { ruleHandlersValidate(c) })
 	})
+}
+
+// ruleNewPeersAreFresh: a peer that a scheduler, checker or the scatterer asks
+// the operator builder to create on a chosen store is a fresh literal without
+// an id (the builder then draws one from the allocator) — or carries an id that
+// came out of the allocator. A struct copy of an existing peer with the store
+// replaced keeps the id of a live peer.
+func ruleNewPeersAreFresh(c *Ctx) {
+	P := c.P
+	rule := c.Prop + "/planned-peer-ids"
+	mpb := "github.com/pingcap/kvproto/pkg/metapb"
+	peerT := P.named(mpb, "Peer")
+	storeID := P.Field(mpb, "Peer", "StoreId")
+	idF := P.Field(mpb, "Peer", "Id")
+	getPeerID := F(P.Method(mpb, "Peer", "GetId"))
+	scope := map[string]bool{modPath + "/server/schedule": true, modPath + "/server/schedule/checker": true, modPath + "/server/schedulers": true, modPath + "/server/cluster": true}
+	fromAlloc := func(v ssa.Value) bool {
+		return derivesFrom(v, func(w ssa.Value) bool {
+			cl, _ := callOf(w)
+			if cl == nil {
+				return false
+			}
+			name := ""
+			if cl.Call.IsInvoke() {
+				name = cl.Call.Method.Name()
+			} else if f := cl.Call.StaticCallee(); f != nil {
+				name = f.Name()
+			}
+			return name == "AllocID" || name == "Alloc"
+		}, 6)
+	}
+	n := 0
+	for _, fn := range P.Funcs {
+		if P.isScaffold(fn) || !scope[fnPkgPath(fn)] {
+			continue
+		}
+		k := 0
+		for _, b := range fn.Blocks {
+			for _, ins := range b.Instrs {
+				al, ok := ins.(*ssa.Alloc)
+				if !ok {
+					continue
+				}
+				if nn := namedOf(al.Type()); nn == nil || nn.Obj() != peerT.Obj() {
+					continue
+				}
+				hasStore, copied, badID := false, false, false
+				for _, ref := range *al.Referrers() {
+					switch r := ref.(type) {
+					case *ssa.Store:
+						if r.Addr == ssa.Value(al) {
+							if _, isZero := r.Val.(*ssa.Const); !isZero {
+								copied = true
+							}
+						}
+					case *ssa.FieldAddr:
+						for _, rr := range *r.Referrers() {
+							st, ok := rr.(*ssa.Store)
+							if !ok || st.Addr != ssa.Value(r) {
+								continue
+							}
+							switch fieldOfAddr(r) {
+							case storeID:
+								hasStore = true
+							case idF:
+								// the id of another, existing peer
+								if !fromAlloc(st.Val) && derivesFrom(st.Val, orPred(loadOfField(idF), resultOfCall(getPeerID)), 4) {
+									badID = true
+								}
+							}
+						}
+					}
+				}
+				if !hasStore {
+					continue
+				}
+				k++
+				n++
+				c.saw(fnName(outer(fn)))
+				c.Check(!copied && !badID, rule, fmt.Sprintf("peer built for a chosen store #%d in %s", k, fnName(fn)), "a fresh literal whose id is unset (allocated by the builder) or comes from the allocator — never a copy of an existing peer", P.instrPos(al), map[bool]string{true: "struct copy of an existing peer", false: "id of an existing peer"}[copied])
+			}
+		}
+	}
+	if n < 8 {
+		c.Undec(rule, "peers built for chosen stores in schedulers, checkers, scatterer and cluster", "at least 8", "", fmt.Sprint(n))
+	}
 }
